@@ -37,7 +37,7 @@ for d in sorted(os.listdir(os.path.join(V, 'refactored'))):
         continue
     dirs.append(d)
 rows = []
-with ThreadPoolExecutor(max_workers=6 if ALL else 10) as ex:
+with ThreadPoolExecutor(max_workers=int(os.environ.get('ASL_WORKERS', 6 if ALL else 10))) as ex:
     for d, rc, out in ex.map(run_one, dirs):
         sd = os.path.join(V, 'refactored', d)
         meta = json.load(open(os.path.join(sd, 'meta.json')))
